@@ -13,9 +13,10 @@ extern __thread int vrt_internal;
 /* ------------------------------------------------------------------------------------------ */
 /* schedule perturbation: every lock / semaphore operation of the library is a scheduling point */
 static volatile uint32_t g_pt_seed;
-static volatile int      g_pt_permille, g_pt_maxus;
+static volatile int      g_pt_permille, g_pt_maxus, g_pt_target; /* target: 0 all threads, 1 only the first (application) thread, 2 all but it */
 static __thread uint32_t t_rng;
 
+void vrt_perturb_target(int target) { g_pt_target = target; }
 void vrt_perturb(uint32_t seed, int permille, int max_usleep) {
     g_pt_seed     = seed;
     g_pt_maxus    = max_usleep;
@@ -25,6 +26,10 @@ void vrt_perturb(uint32_t seed, int permille, int max_usleep) {
 static inline void sched_point(void) {
     int pm = g_pt_permille;
     if (!pm)
+        return;
+    if (g_pt_target == 1 && vrt_tid() != 0)
+        return;
+    if (g_pt_target == 2 && vrt_tid() == 0)
         return;
     if (!t_rng)
         t_rng = ((g_pt_seed * 2654435761u) ^ ((uint32_t)(vrt_tid() + 1) * 40503u)) | 1u;
